@@ -198,6 +198,9 @@ def callers_of(fb, pats, crates=None):
             for pat in ((pats,) if isinstance(pats, str) else pats):
                 probe = pat[3:] if pat.startswith('re:') else pat
                 probe = probe.split('::')[-1].strip('$^\\')
+                if not re.match(r'^[A-Za-z0-9_]+$', probe):
+                    hit = True   # pattern too complex for the textual prefilter
+                    break
                 if probe and probe in line:
                     hit = True
                     break
@@ -252,6 +255,55 @@ def field_writes(fb, owner_adt, crates=None):
                             if isinstance(e, list) and e[0] == 'f' and e[3] == owner_adt:
                                 out.append((f, i, s, e[2]))
     return out
+
+
+def _rv_operands(rv):
+    k = rv[0]
+    if k in ('use', 'rep'):
+        return [rv[1]]
+    if k in ('ref', 'raw'):
+        return [['c', rv[2]]]
+    if k == 'cast':
+        return [rv[2]]
+    if k == 'bin':
+        return [rv[2], rv[3]]
+    if k == 'un':
+        return [rv[2]]
+    if k == 'agg':
+        return list(rv[4])
+    if k == 'disc':
+        return [['c', rv[1]]]
+    return []
+
+
+def depends(fn, local=0):
+    """data + control dependence closure of a local: the set of (local, fields) places whose value can
+    influence it (calls depend on all their arguments; a definition depends on the discriminants of the
+    branches that guard its block)."""
+    seen_locals = set()
+    places = set()
+    work = [local]
+    guard_cache = {}
+    while work:
+        l = work.pop()
+        if l in seen_locals:
+            continue
+        seen_locals.add(l)
+        for (bb, j, kind, payload, dplace) in fn.defs().get(l, []):
+            ops = list(payload.args) if kind == 'call' else _rv_operands(payload)
+            if bb not in guard_cache:
+                guard_cache[bb] = [g.discr for g in fn.guards(bb)]
+            ops = ops + guard_cache[bb]
+            for o in ops:
+                p = op_place(o)
+                if p is None:
+                    continue
+                places.add((p[0], tuple(place_fields(p))))
+                work.append(p[0])
+                for e in p[1:]:
+                    if isinstance(e, list) and e[0] == 'i':
+                        work.append(e[1])
+    return places
 
 
 def fmt_chain(chain, maxlen=8):
